@@ -1005,6 +1005,48 @@ pub fn make(w: &mut World, kind: Kind, fd: Option<usize>, pool: Option<usize>, t
     Made { task, expect, name }
 }
 
+/// I/O with a `ReadBuf` that already owns a pool buffer: a second read appends
+/// to it (like a `Vec<u8>`), a write sends its contents.
+pub fn make_buf_io(w: &World, fd: usize, buf: ReadBuf, model: Vec<u8>, second_read: bool) -> Made {
+    let f = w.fd_ref(fd);
+    if second_read {
+        let cap = buf.capacity();
+        let fut_ = alloc::a10(|| f.read(buf));
+        Made {
+            task: fut(fut_, |o, prod| {
+                io_err(o).map(|b| {
+                    let v = b.as_slice().to_vec();
+                    prod.push(Produced::ReadBuf(b));
+                    Val::Bytes(v)
+                })
+            }),
+            expect: exp(move |rec, i, _, _| {
+                let mut v = model.clone();
+                v.extend_from_slice(&rec.wrote[i]);
+                assert!(v.len() <= cap);
+                Val::Bytes(v)
+            }),
+            name: "ReadIntoOwnedReadBuf",
+        }
+    } else {
+        let fut_ = alloc::a10(|| f.write(buf).extract());
+        Made {
+            task: fut(fut_, |o, prod| {
+                io_err(o).map(|(b, n)| {
+                    let v = b.as_slice().to_vec();
+                    prod.push(Produced::ReadBuf(b));
+                    Val::BytesFlags(vec![v], n as i32)
+                })
+            }),
+            expect: exp(move |rec, _, res, _| {
+                assert!(rec.taken == model[..res as usize]);
+                Val::BytesFlags(vec![model.clone()], res)
+            }),
+            name: "WriteReadBuf",
+        }
+    }
+}
+
 /// Composite operations are not compared completion by completion.
 pub fn is_composite(kind: Kind) -> bool {
     matches!(kind, Kind::WriteAll | Kind::ReadN)
